@@ -1158,7 +1158,8 @@ class Converter:
             # Ideally, live_out should never be None here. But handle this conditionally
             # due to some existing usage.
             live_def_set = live_out.intersection(live_def_set)
-        live_defs = list(live_def_set)
+        # Sorted: the iteration order of a set of strings depends on PYTHONHASHSEED
+        live_defs = sorted(live_def_set)
         test = self._translate_expr(stmt.test, "cond")
         lineno = self._source_of(stmt).lineno
         then_graph = self._translate_block(stmt.body, f"thenGraph_{lineno}", live_defs)
@@ -1246,9 +1247,10 @@ class Converter:
         vars_def_in_loop = self.analyzer.assigned_vars(loop_stmt.body)
         live_out = self.analyzer.live_out(loop_stmt)
         assert live_out is not None, "live_out cannot be None here."
-        loop_state_vars = vars_def_in_loop.intersection(exposed_uses | live_out)
-        scan_outputs = set()  # TODO
-        outputs = list(loop_state_vars | scan_outputs)
+        # Sorted: the iteration order of a set of strings depends on PYTHONHASHSEED
+        loop_state_vars = sorted(vars_def_in_loop.intersection(exposed_uses | live_out))
+        scan_outputs: list[str] = []  # TODO
+        outputs = loop_state_vars + scan_outputs
 
         # loop-condition:
         # o_loop_condition = self._emit_const(True, "true", self._source_of(loop_stmt))
